@@ -5,7 +5,7 @@ import (
 	"strings"
 )
 
-const modPrefix = "github.com/go-task/task/v3/"
+const modRoot = "github.com/go-task/task/v3"
 
 // Crash is what a dead Go process left on its stderr.
 type Crash struct {
@@ -95,8 +95,11 @@ func ParseCrash(stderr string) (c Crash, ok bool) {
 			continue
 		}
 		fn := stripArgs(l)
-		if strings.HasPrefix(fn, modPrefix) && !strings.HasPrefix(fn, modPrefix+"verifh") {
-			c.Frame = strings.TrimPrefix(fn, modPrefix)
+		if (strings.HasPrefix(fn, modRoot+"/") || strings.HasPrefix(fn, modRoot+".")) && !strings.HasPrefix(fn, modRoot+"/verifh") {
+			c.Frame = strings.TrimPrefix(strings.TrimPrefix(fn, modRoot+"/"), modRoot+".")
+			if strings.HasPrefix(fn, modRoot+".") {
+				c.Frame = "task." + c.Frame
+			}
 			if prev != "" {
 				c.Via = prev
 			}
